@@ -16,6 +16,7 @@ code -> spec : what the real code returned - ids as 22-bit limbs, the two inters
                probe and the brute-force bin of every pair with exact lattice arithmetic.
 Python never decides a verdict; it maps abstract <-> concrete and records.
 """
+import json
 import os
 import pickle
 import random
@@ -38,10 +39,10 @@ DEPTHS = list(range(0, MAXDEPTH + 1))
 
 BOUNDS = {
     "quick": dict(Scope="q", FullDepth=3, Levels=1, MaxN1=1, MaxN2=2,
-                  n_random_pts=1500, n_rs_pts=120, cover_conc=6, cover_rand=160, cover_rs_rand=40, cover_star=400, pairs_star=300, HistN2=1, HistCalls=2, hist_rand=150, hist_rs_rand=50, reps_per_row=2, ScaleSizes={100000, 100001, 250000}, deep_star=180,
+                  n_random_pts=1500, n_rs_pts=120, cover_conc=6, cover_rand=160, cover_rs_rand=40, cover_star=400, pairs_star=300, HistN2=1, HistCalls=2, hist_rand=150, hist_rs_rand=50, reps_per_row=2, ScaleSizes={100000, 100001, 250000}, deep_star=180, WorldObj=2, WorldCalls=3, WorldMC=(3, 3), world_conc=2,
                   pairs_rand=500, pairs_rs_rand=200, cap_cover=2e5, cap_pairs=3e4, cap_span=2e4),
     "thorough": dict(Scope="t", FullDepth=5, Levels=2, MaxN1=1, MaxN2=2,
-                     n_random_pts=40000, n_rs_pts=414, cover_conc=8, cover_rand=3000, cover_rs_rand=500, cover_star=5000, pairs_star=3000, HistN2=1, HistCalls=3, hist_rand=2500, hist_rs_rand=800, reps_per_row=12, ScaleSizes={65535, 65536, 65537, 100000, 100001, 131073, 200000, 200001, 250000, 300007, 1048577}, deep_star=4000,
+                     n_random_pts=40000, n_rs_pts=414, cover_conc=8, cover_rand=3000, cover_rs_rand=500, cover_star=5000, pairs_star=3000, HistN2=1, HistCalls=3, hist_rand=2500, hist_rs_rand=800, reps_per_row=12, ScaleSizes={65535, 65536, 65537, 100000, 100001, 131073, 200000, 200001, 250000, 300007, 1048577}, deep_star=4000, WorldObj=3, WorldCalls=3, WorldMC=(3, 4), world_conc=5,
                      pairs_rand=6000, pairs_rs_rand=3000, cap_cover=2e6, cap_pairs=6e4, cap_span=6e4),
 }
 LIST_MAX = 48          # intersect lists up to this length are written out and re-projected by TLC
@@ -1057,6 +1058,95 @@ def _rep_class(entry, odd, clause):
 
 
 
+
+# =====================================================================================
+# class W: sessions over several live HTM objects in one process (HtmIdsWorldMC.tla; executed by vh/htmworld.py)
+WORLD_FORMS = {"scalar": ["pyfloat", "npfloat", "zerod"], "array": ["array1", "list1", "arrayN", "reused"]}
+WORLD_SCRIPT = os.path.join(os.path.dirname(os.path.dirname(os.path.abspath(__file__))), "htmworld.py")
+
+
+def _clean_pos(ra, dec):
+    return [float(min(360.0, max(0.0, ra))), float(min(90.0, max(-90.0, dec)))]
+
+
+def world_sessions(cases, n_conc, rng):
+    """concretisations of the exported sessions, DESIGNED to collide: the same position handed to objects of different
+    depths (adjacent and far apart), twin positions agreeing to 7 / 12 / all but the last digit, twin objects of one depth"""
+    out = []
+    for c in cases:
+        has_cover = any(st["op"] == "intersect" for st in c["steps"])
+        for k in range(n_conc):
+            dmax = 12 if has_cover else MAXDEPTH
+            gap = rng.choice([1, 1, 2, 3, 7])
+            d1 = rng.randrange(0, dmax - gap + 1)
+            depths = [d1, d1 + gap, d1 + gap][:c["nobj"]]
+            if rng.random() < 0.5:
+                depths[0], depths[1] = depths[1], depths[0]          # which object is the deeper one
+                if len(depths) == 3:
+                    depths[2] = depths[1]                            # object 3 stays the twin of object 2
+            P = _clean_pos(*rand_centre(rng))
+            tw = rng.random()
+            if tw < 0.25:
+                Q = _clean_pos(*rand_centre(rng))
+            elif tw < 0.5:
+                Q = _clean_pos(float(np.nextafter(P[0], 400.0 if P[0] < 180 else -1.0)), P[1])
+            else:
+                rel = 10.0 ** rng.choice([-7, -8, -9, -12])
+                Q = _clean_pos(P[0] * (1 + rel) if P[0] > 1 else P[0] + rel, P[1] * (1 - rel) if abs(P[1]) > 1 else P[1] - rel)
+            leaf = 90.0 / 2 ** max(depths)
+            radius = max(1.5e-4, leaf * rng.uniform(0.5, 3.0))
+            steps = []
+            for st in c["steps"]:
+                st = dict(st)
+                if st["op"] == "lookup":
+                    st["form"] = rng.choice(WORLD_FORMS[st["mode"]])
+                elif st["op"] == "intersect":
+                    st["form"] = "pyfloat"
+                steps.append(st)
+            out.append({"depths": depths, "pos": [P, Q], "radius": radius, "steps": steps,
+                        "filler": [_clean_pos(*rand_centre(rng)) for _ in range(rng.choice([2, 5]))]})
+    return out
+
+
+def _world_worker(sessions):
+    import subprocess
+    import sys
+    if not sessions:
+        return []
+    r = subprocess.run([sys.executable, WORLD_SCRIPT], input="".join(json.dumps(s) + "\n" for s in sessions),
+                       capture_output=True, text=True, timeout=3000)
+    lines = [ln for ln in r.stdout.splitlines() if ln.strip()]
+    if r.returncode != 0 or len(lines) != len(sessions):
+        raise MachineryError("world runner failed (rc %s, %d of %d sessions): %s" % (r.returncode, len(lines), len(sessions), r.stderr[-800:]))
+    return [json.loads(ln) for ln in lines]
+
+
+def run_world(sessions):
+    """every session in ONE fresh process (a child forked from a process that imported esutil and called nothing)"""
+    w = max(1, min(8, os.cpu_count() or 1, int(os.environ.get("VH_MAX_WORKERS", "16")), (len(sessions) + 49) // 50))
+    shares = [sessions[i::w] for i in range(w)]
+    with ThreadPoolExecutor(w) as ex:
+        res = list(ex.map(_world_worker, shares))
+    out = [None] * len(sessions)
+    for i, part in enumerate(res):
+        out[i::w] = part
+    return out
+
+
+def _world_text(s, rec):
+    L = []
+    for n, (st, c) in enumerate(zip(s["steps"], rec["calls"]), 1):
+        if st["op"] == "scribble":
+            L.append("%d: caller overwrites the array returned by step %d" % (n, st["target"]))
+        else:
+            ra, dec = s["pos"][st["pos"] - 1]
+            got = (c["id"][0] << 44) + (c["id"][1] << 22) + c["id"][2] if st["op"] == "lookup" else c["dig"]
+            fresh = (c["fid"][0] << 44) + (c["fid"][1] << 22) + c["fid"][2] if st["op"] == "lookup" else c["fdig"]
+            L.append("%d: HTM(%d)#%d.%s(%r, %r%s) [%s] -> %s %s (fresh process: %s %s)" % (
+                n, s["depths"][st["obj"] - 1], st["obj"], "lookup_id" if st["op"] == "lookup" else "intersect", ra, dec,
+                "" if st["op"] == "lookup" else ", %r" % s["radius"], st["form"], c["err"], got, c["ferr"], fresh))
+    return "; ".join(L)
+
 # =====================================================================================
 # judging
 def _cover_class(rec, meta):
@@ -1105,6 +1195,10 @@ def judge(ctx, items, what):
                 sig = "intersect|%s|%s" % (cl, _cover_class(rec, meta))
                 msg = "intersect(ra=%r, dec=%r, radius=%r) at depth %d violates clause %s (%d listed, %d full)" % (
                     meta["ra"], meta["dec"], meta["radius"], rec["depth"], cl, meta["nincl"], meta["nfull"])
+            elif rec["kind"] == "world":
+                sig = "world|%s|%s" % (cl, "caller_overwrote_a_result" if any(c["op"] == "scribble" for c in rec["calls"]) else "calls_only")
+                msg = ("session over %d live HTM objects (depths %s) in one process violates clause %s: %s" % (
+                    len(rec["depths"]), rec["depths"], cl, _world_text(rp["session"], rec)))
             elif rec["kind"] == "scale":
                 sig = "bincount|%s|%s" % (cl, _pairs_class(rec, cl))
                 msg = ("bincount with a first list of %d points (a %d-point lattice configuration tiled, scale %s) at depth %d: clause %s; "
@@ -1123,6 +1217,9 @@ def judge(ctx, items, what):
                 msg = "bincount(rmin=%r, rmax=%r, nbin=%d, scale=%s) differs from the brute-force count: clause %s; observed %s %s" % (
                     meta["rmin"], meta["rmax"], meta["nbin"], meta["scale_arg"], cl, [(o["var"], o["err"], o["counts"]) for o in rec["obs"]],
                     _pairs_detail(rec))
+            if rec["kind"] == "world":
+                ctx.violation(sig, msg, dict(rp, observed=rec["calls"]))
+                continue
             ctx.violation(sig, msg, dict(rp, observed=rec.get("obs") or ([c["obs"] for c in rec["calls"]] if "calls" in rec else None) or
                                          ({k: rec[k] for k in ("uobs", "robs", "bobs")} if rec["kind"] == "scale" else None) or {k: rec[k] for k in ("ids", "sids") if k in rec} or
                                          {"cin": rec.get("cin"), "pin": rec.get("pin"), "pfull": rec.get("pfull")}))
@@ -1158,7 +1255,7 @@ def _tlc_batch(ctx, jobs, width=4):
     """several independent TLC runs side by side (each is its own JVM)"""
     n0 = len(ctx.tlc_runs)
     with ThreadPoolExecutor(width) as ex:
-        futs = [ex.submit(lambda kw=kw: ctx.tlc("HtmIdsMC.tla", **kw)) for kw in jobs]
+        futs = [ex.submit(lambda kw=kw: ctx.tlc(kw.get("module", "HtmIdsMC.tla"), **{k: v for k, v in kw.items() if k != "module"})) for kw in jobs]
         res = [f.result() for f in futs]
     ctx.tlc_runs[n0:] = sorted(ctx.tlc_runs[n0:], key=lambda r: r["what"])      # completion order is not deterministic
     return res
@@ -1214,6 +1311,11 @@ def run(ctx):
              cfg_text=cfg(constants=_consts(small, Part="reps"), invariants=["RepDesignOK", "RepRowSane"]),
              workers=2, require=["ChooseRep"], timeout=600),
     ]
+    wobj, wcalls = B["WorldMC"]
+    jobs.append(dict(module="HtmIdsWorldMC.tla", what="world: sessions over %d live objects x %d steps (scalar/array lookups, intersect, Scribble) = fresh world" % (wobj, wcalls),
+                     cfg_text=cfg(constants=dict(NObj=wobj, NCalls=wcalls, Deviation="none", DoExport=False),
+                                  invariants=["WorldRefines", "WorldResultsAreCallers", "WorldIdsSane"]),
+                     workers=4, require=["Call", "Scribble"], timeout=3000))
     n_main = len(jobs)
     selftests = [("hist", "stale_cache", "HistMechRefines"), ("ids", "miss_level", "IdsMechRefines"), ("cover", "no_inner_test", "CoverMechRefines"),
                  ("cover", "no_hole_test", "CoverMechRefines"), ("pairs", "trunc_toward_zero", "PairMechRefines"),
@@ -1221,6 +1323,11 @@ def run(ctx):
     for part, dev, inv in selftests:
         jobs.append(dict(what="self-test: deviation %s violates %s" % (dev, inv),
                          cfg_text=cfg(constants=_consts(small, Part=part, Deviation=dev, MaxDepth=6), invariants=[inv]),
+                         workers=1, allow_violation=True, coverage=False, timeout=600))
+    world_selftests = ["memo_without_depth", "memo_own_storage"]
+    for dev in world_selftests:
+        jobs.append(dict(module="HtmIdsWorldMC.tla", what="self-test: world deviation %s violates WorldRefines" % dev,
+                         cfg_text=cfg(constants=dict(NObj=2, NCalls=3, Deviation=dev, DoExport=False), invariants=["WorldRefines"]),
                          workers=1, allow_violation=True, coverage=False, timeout=600))
     exports = [dict(what="export circles %s" % lat,
                     cfg_text=cfg(constants=_consts(B, Part="cover", Lat=lat, DoExport=True), next_="NextExport", constraints=["Export"]),
@@ -1236,11 +1343,17 @@ def run(ctx):
                      workers=1, coverage=False, timeout=3000) for lat in ("gc", "rs")]
     exports.append(dict(what="export representation rows", cfg_text=cfg(constants=_consts(small, Part="reps", DoExport=True), next_="NextExport",
                                                                     constraints=["Export"]), workers=1, coverage=False, timeout=600))
+    exports.append(dict(module="HtmIdsWorldMC.tla", what="export world sessions",
+                        cfg_text=cfg(constants=dict(NObj=B["WorldObj"], NCalls=B["WorldCalls"], Deviation="none", DoExport=True), constraints=["Export"]),
+                        workers=1, coverage=False, timeout=3000))
     if want("mc"):
         res = _tlc_batch(ctx, jobs)
         for (part, dev, inv), r in zip(selftests, res[n_main:]):
             if inv not in r.violated:
                 raise MachineryError("self-test failed: deviation %s does not violate %s" % (dev, inv))
+        for dev, r in zip(world_selftests, res[n_main + len(selftests):]):
+            if "WorldRefines" not in r.violated:
+                raise MachineryError("self-test failed: world deviation %s does not violate WorldRefines" % dev)
     ex = _tlc_batch(ctx, exports)
     cases = [c for r in ex for c in r.records.get("CASE", [])]
     cover_cases = [c for c in cases if c["kind"] == "cover"]
@@ -1248,6 +1361,9 @@ def run(ctx):
     hist_cases = [c for c in cases if c["kind"] == "history"]
     rep_rows = [c for c in cases if c["kind"] == "reps"]
     scale_cases = [c for c in cases if c["kind"] == "scale"]
+    world_cases = [c for c in cases if c["kind"] == "world"]
+    if not world_cases:
+        raise MachineryError("no world sessions exported")
     if not cover_cases or not pairs_cases or not hist_cases or not rep_rows or not scale_cases or {c["lat"] for c in cases if "lat" in c} != {"gc", "rs"}:
         raise MachineryError("no cases exported (%d circles, %d pair problems)" % (len(cover_cases), len(pairs_cases)))
 
@@ -1267,7 +1383,7 @@ def run(ctx):
         ctx.sample({"lookup_id": {"ra": items[0][1]["ra"], "dec": items[0][1]["dec"]}, "ids_depth_0_3_as_limbs": items[0][0]["ids"][:4]})
         rej = judge(ctx, items, "judge lookup_id ladders (HtmIdsTrace)")
         n_lookup = len(items)
-        items_probe["lookup"] = next(it for it in items if it[0]["id"] not in rej and it[0]["err"] == "none")
+        items_probe["lookup"] = next((it for it in items if it[0]["id"] not in rej and it[0]["err"] == "none"), None)
 
     # ---- 3. intersect: spec -> code (exported circles) and code -> spec (seeded larger ones) ----------
     n_cover = 0
@@ -1303,8 +1419,8 @@ def run(ctx):
                 or not any(any(it[0]["pfull"]) for it in deep):
             raise MachineryError("vacuous: deep circles (depth 13..24) missing, or without targeted probes in full triangles")
         ctx.note(deep_circles=len(deep), targeted_probes=sum(it[1].get("targeted", 0) for it in deep))
-        items_probe["cover"] = next(it for it in items if it[0]["id"] not in rej and it[0]["err"] == "none" and it[0]["lat"] == "gc"
-                                    and it[0]["c"] in it[0]["probes"] and it[0]["pin"][it[0]["probes"].index(it[0]["c"])])
+        items_probe["cover"] = next((it for it in items if it[0]["id"] not in rej and it[0]["err"] == "none" and it[0]["lat"] == "gc"
+                                    and it[0]["c"] in it[0]["probes"] and it[0]["pin"][it[0]["probes"].index(it[0]["c"])]), None)
 
     # ---- 4. bincount ------------------------------------------------------------------------------------
     n_pairs = 0
@@ -1370,6 +1486,29 @@ def run(ctx):
             raise MachineryError("vacuous: no large first list with a per-point scale counted a pair")
         ctx.note(scale_cases=n_scale, scale_sizes=sorted(B["ScaleSizes"]))
 
+    # ---- 4w. world: sessions over several live HTM objects, each in one fresh process ------------------------------
+    n_world = 0
+    if want("world") or want("lookup"):
+        sess = world_sessions(world_cases, B["world_conc"], rng)
+        out = run_world(sess)
+        items = [(rec, {"depths": s_["depths"]}, {"part": "world", "session": s_}) for rec, s_ in zip(out, sess)]
+        for rec, meta, rp in items:
+            ctx.count(rp["session"])
+            ctx.evaluations += 2 * sum(1 for c in rec["calls"] if c["op"] != "scribble") - 1
+        smp = items[0]
+        ctx.sample({"world_session": smp[2]["session"], "observed": smp[0]["calls"]})
+        rej = judge(ctx, items, "judge sessions over several HTM objects (HtmIdsTrace)")
+        n_world = len(items)
+
+        def collides(rec):
+            L = [c for c in rec["calls"] if c["op"] == "lookup" and c["err"] == "none" and c["mode"] == "scalar"]
+            return any(a["pos"] == b["pos"] and rec["depths"][a["obj"] - 1] != rec["depths"][b["obj"] - 1] for a in L for b in L)
+        if not any(collides(it[0]) for it in items) or not any(c["op"] == "scribble" for it in items for c in it[0]["calls"]) \
+                or not any(c["op"] == "intersect" and c["err"] == "none" and c["dig"] and c["dig"][0] > 0 for it in items for c in it[0]["calls"]):
+            raise MachineryError("vacuous: world sessions without colliding scalar lookups / scribbles / non-empty intersects")
+        ctx.note(world_sessions=n_world, world_exported=len(world_cases))
+        items_probe["world"] = next((it for it in items if it[0]["id"] not in rej and collides(it[0])), None)
+
     # ---- 4c. representations: every exported row of the covering design, replayed on a few problems each -------------
     n_reps = 0
     if want("reps"):
@@ -1425,6 +1564,14 @@ def run(ctx):
         probe += [good, bad]
         expect[len(probe)] = {"after_overwrite_extra_in_first_bin", "after_overwrite_extra_in_first_bin_with_pairs_below_rmin",
                               "after_overwrite_extra_in_later_bin"}
+    if items_probe.get("world"):
+        good = copy.deepcopy(items_probe["world"][0])
+        bad = copy.deepcopy(good)
+        L = [c for c in bad["calls"] if c["op"] == "lookup" and c["mode"] == "scalar"]
+        x, y = next((a_, b_) for a_ in L for b_ in L if a_["pos"] == b_["pos"] and bad["depths"][a_["obj"] - 1] != bad["depths"][b_["obj"] - 1])
+        y["id"] = list(x["id"])                     # the other object's answer
+        probe += [good, bad]
+        expect[len(probe)] = {"session_id_out_of_range_for_its_depth"}
     if probe:
         for n, r in enumerate(probe, 1):
             r["id"] = n
@@ -1447,12 +1594,15 @@ def run(ctx):
                 "of calling each); histories: every (Overwrite ; Bincount)^%d of HtmIdsMC.tla part hist + %d seeded histories of 3..5 calls on one "
                 "HTM object with the same ndarray objects overwritten in place (%d histories); representations: every row of the covering "
                 "design of HtmIdsMC.tla part reps (entry point x argument x 7..16 representations x contiguous/strided partner, %d rows) x %d "
-                "problems; a case "
+                "problems; world: every colliding session of HtmIdsWorldMC.tla (%d live objects x %d steps: scalar / array lookup_id, "
+                "intersect, Scribble) x %d concretisations (depth pairs, twin positions, argument forms), each in one fresh process "
+                "(%d sessions); a case "
                 "is distinct by its abstract record + concretisation" %
                 (len(hl.CIRCLES), B["n_random_pts"], n_lookup, B["Scope"], B["cover_conc"], B["cap_cover"],
                  B["cover_rand"] + B["cover_rs_rand"] + B["cover_star"], B["cover_star"], n_cover, B["MaxN2"], B["MaxN1"],
                  B["pairs_rand"] + B["pairs_rs_rand"] + B["pairs_star"], B["pairs_star"], n_pairs,
-                 B["HistCalls"], B["hist_rand"] + B["hist_rs_rand"], n_hist, len(rep_rows), B["reps_per_row"]))
+                 B["HistCalls"], B["hist_rand"] + B["hist_rs_rand"], n_hist, len(rep_rows), B["reps_per_row"],
+                 B["WorldObj"], B["WorldCalls"], B["world_conc"], n_world))
     ctx.exhaustive = True
     ctx.note(bounds={k: v for k, v in B.items()}, exported_circles=len(cover_cases), exported_pair_problems=len(pairs_cases),
              lookup_positions=n_lookup, circle_records=n_cover, pair_records=n_pairs, history_records=n_hist, exported_histories=len(hist_cases))
@@ -1498,6 +1648,9 @@ def replay(ctx, case):
         else:
             rec, meta = (run_rep_pairs if e == "bincount" else run_rep_cover)(job)
             items = [(rec, meta, {"part": "reps", "job": case["job"]})]
+    elif part == "world":
+        rec, = run_world([case["session"]])
+        items = [(rec, {"depths": case["session"]["depths"]}, {"part": "world", "session": case["session"]})]
     elif part == "history":
         job = dict(case["job"])
         if isinstance(job["unit"], str):
